@@ -1,0 +1,55 @@
+//! Verification hooks (cargo feature `verif`, off by default).
+//!
+//! Nothing in here changes behaviour unless a test harness installs something:
+//! * a virtual clock consulted by TTL expiry (`set_now_ms`), and
+//! * a callback invoked at named sync points in the append / read paths
+//!   (`set_sync_hook`), so a harness can widen race windows deterministically.
+
+use std::sync::atomic::{AtomicBool, AtomicU64, Ordering};
+use std::sync::{Arc, RwLock};
+
+use scru128::Scru128Id;
+
+static NOW_SET: AtomicBool = AtomicBool::new(false);
+static NOW_MS: AtomicU64 = AtomicU64::new(0);
+
+/// Freeze (Some) or release (None) the clock used to decide `time:N` expiry.
+pub fn set_now_ms(now: Option<u64>) {
+    match now {
+        Some(ms) => {
+            NOW_MS.store(ms, Ordering::SeqCst);
+            NOW_SET.store(true, Ordering::SeqCst);
+        }
+        None => NOW_SET.store(false, Ordering::SeqCst),
+    }
+}
+
+pub fn now_override_ms() -> Option<u64> {
+    if NOW_SET.load(Ordering::SeqCst) {
+        Some(NOW_MS.load(Ordering::SeqCst))
+    } else {
+        None
+    }
+}
+
+pub type SyncHook = Arc<dyn Fn(&'static str, Option<Scru128Id>) + Send + Sync>;
+
+static HOOK_SET: AtomicBool = AtomicBool::new(false);
+static HOOK: RwLock<Option<SyncHook>> = RwLock::new(None);
+
+pub fn set_sync_hook(hook: Option<SyncHook>) {
+    let mut guard = HOOK.write().unwrap();
+    HOOK_SET.store(hook.is_some(), Ordering::SeqCst);
+    *guard = hook;
+}
+
+#[inline]
+pub fn sync_point(label: &'static str, id: Option<Scru128Id>) {
+    if !HOOK_SET.load(Ordering::Relaxed) {
+        return;
+    }
+    let hook = HOOK.read().unwrap().clone();
+    if let Some(hook) = hook {
+        hook(label, id);
+    }
+}
